@@ -192,4 +192,6 @@ def obligations(tier):
         obls.append(_obl("B/sink-raises/%s/k=3" % n[0],
                          {"template": "chain", "units": n + ["sink_fn"], "small": SP.inspects(n), "dom": 1},
                          3, B, nmask=NMASK))
+    from harness import c16_df
+    obls.extend(c16_df.obligations(tier))
     return obls
